@@ -145,5 +145,8 @@ func EnvFor(r *R, m *Mentions, emptyStore bool) *model.Env {
 	return env
 }
 
+// PickVal exposes the biased value choice (a literal of the policy, a neighbour, or random).
+func (m *Mentions) PickVal(r *R) model.Val { return m.pickVal(r, 1) }
+
 // PickEnt exposes the biased entity choice.
 func (m *Mentions) PickEnt(r *R) model.Val { return m.pickEnt(r) }
